@@ -12,7 +12,7 @@ from vf.genflat import num, var
 from vf.worker import exc_sig
 
 LEVEL = "exploration"
-RULE = ("generated flat models with unary and n-ary operators, 1- and 2-argument function calls, der, integer/real/"
+RULE = ("generated flat models with unary and n-ary operators, 1- to 4-argument function calls, Boolean literals as start/value, der, integer/real/"
         "string literals, sub-component (dotted) names and variables of each variability with literal start/value "
         "attributes; distinct = digest of model text; non-trivial = >=2 equations containing both a unary/1-argument "
         "and an n-ary node")
@@ -51,6 +51,20 @@ def gen_case(rng):
         names.append(n)
         info[n] = {"type": typ, "variability": var_ or None, "start": start, "value": value}
         tags.add("variability:" + (var_ or "continuous"))
+    # Boolean variables and parameters, with both literal values
+    for j in range(rng.randint(0, 2)):
+        n = "b%d" % j
+        var_ = rng.choice(["parameter", "discrete", "constant"])
+        bv = rng.random() < 0.5
+        lit_b = "true" if bv else "false"
+        if var_ == "discrete":
+            decls.append("  discrete Boolean %s(start = %s);" % (n, lit_b))
+            info[n] = {"type": "Boolean", "variability": "discrete", "start": bv, "value": None}
+        else:
+            decls.append("  %s Boolean %s = %s;" % (var_, n, lit_b))
+            info[n] = {"type": "Boolean", "variability": var_, "start": None, "value": bv}
+        names.append(n)
+        tags.add("boolean-literal:" + lit_b)
     if ext == "ext:signed-literal-attribute":
         decls.append("  Real sg(start = -1);")
         names.append("sg")
@@ -81,7 +95,14 @@ def gen_case(rng):
             break
         tgt = var(rng.choice(reals))
         lhs = ("der", tgt) if rng.random() < 0.35 else tgt
-        eqs.append((lhs, g.real(rng.randint(1, 3))))
+        rhs = g.real(rng.randint(1, 3))
+        if rng.random() < 0.2 and len(leaves) >= 2:
+            # function calls with three and four arguments
+            a3 = [rng.choice(leaves), rng.choice(leaves), num(round(rng.uniform(0.5, 3), 1))]
+            call = ("call", "delay", a3) if rng.random() < 0.6 else ("call", "smoothStep", a3 + [rng.choice(leaves)])
+            rhs = ("bin", "+", call, rhs) if rng.random() < 0.5 else call
+            tags.add("call:%d-arguments" % len(call[2]))
+        eqs.append((lhs, rhs))
     for k_ in g.used:
         tags.add("op:" + k_)
     text = pre + "model M\n" + "\n".join(decls) + "\n" + ("equation\n" + "".join(
